@@ -21,50 +21,107 @@ def _raised(stmts):
     return None
 
 
-def _send_arg(stmts):
-    """Second argument name of `return self.__send(self.__name, <arg>)`."""
-    for s in stmts:
-        if isinstance(s, ast.Return) and isinstance(s.value, ast.Call) and len(s.value.args) == 2:
-            return _name(s.value.args[1])
+class _Stop(Exception):
+    def __init__(self, what):
+        Exception.__init__(self, what)
+        self.what = what
+
+
+def _truth(e, truthy, env):
+    """Truth value of a test over the names `args` / `kwargs` (and locals bound to them) in one of the cases."""
+    if isinstance(e, ast.Name):
+        v = env.get(e.id, e.id)
+        if v in truthy:
+            return truthy[v]
+        raise _Stop(None)
+    if isinstance(e, ast.UnaryOp) and isinstance(e.op, ast.Not):
+        return not _truth(e.operand, truthy, env)
+    if isinstance(e, ast.BoolOp):
+        vals = [_truth(v, truthy, env) for v in e.values]
+        return all(vals) if isinstance(e.op, ast.And) else any(vals)
+    if isinstance(e, ast.Call) and _name(e.func) in ("len", "bool") and len(e.args) == 1:
+        return _truth(e.args[0], truthy, env)
+    if isinstance(e, ast.Compare) and len(e.ops) == 1 and isinstance(e.comparators[0], ast.Constant) and e.comparators[0].value == 0 \
+            and isinstance(e.left, ast.Call) and _name(e.left.func) == "len" and len(e.left.args) == 1:
+        t = _truth(e.left.args[0], truthy, env)
+        if isinstance(e.ops[0], (ast.Gt, ast.NotEq)):
+            return t
+        if isinstance(e.ops[0], ast.Eq):
+            return not t
+    raise _Stop(None)
+
+
+def _value(e, truthy, env):
+    """Which of `args` / `kwargs` an expression denotes in one of the cases (None: something else)."""
+    if isinstance(e, ast.Name):
+        return env.get(e.id, e.id if e.id in truthy else None)
+    if isinstance(e, ast.IfExp):
+        return _value(e.body if _truth(e.test, truthy, env) else e.orelse, truthy, env)
+    if isinstance(e, ast.BoolOp):
+        for v in e.values[:-1]:
+            x = _value(v, truthy, env)
+            if x is None:
+                return None
+            if truthy[x] == isinstance(e.op, ast.Or):
+                return x
+        return _value(e.values[-1], truthy, env)
     return None
+
+
+def _run(stmts, truthy, env):
+    """Executes the statements in one case; raises _Stop(('raise', Class)) / _Stop(('send', what))."""
+    for s in stmts:
+        if isinstance(s, ast.Expr) and isinstance(s.value, ast.Constant):
+            continue
+        if isinstance(s, ast.Raise):
+            cls = s.exc.func.id if isinstance(s.exc, ast.Call) and isinstance(s.exc.func, ast.Name) else _name(s.exc)
+            raise _Stop(("raise", cls))
+        if isinstance(s, ast.If):
+            _run(s.body if _truth(s.test, truthy, env) else s.orelse, truthy, env)
+            continue
+        if isinstance(s, ast.Assign) and len(s.targets) == 1:
+            t = s.targets[0]
+            if isinstance(t, ast.Name):
+                env[t.id] = _value(s.value, truthy, env)
+                continue
+            if isinstance(t, ast.Tuple) and all(isinstance(x, ast.Name) for x in t.elts):
+                # `self, args = args[0], args[1:]`: the receiver is taken off the positional arguments
+                ids = [x.id for x in t.elts]
+                if "args" in ids and isinstance(s.value, ast.Tuple) and len(s.value.elts) == len(ids):
+                    v = s.value.elts[ids.index("args")]
+                    if isinstance(v, ast.Subscript) and _name(v.value) == "args":
+                        continue
+            raise _Stop(None)
+        if isinstance(s, ast.Return):
+            v = s.value
+            if isinstance(v, ast.Call) and len(v.args) == 2 and not v.keywords:
+                raise _Stop(("send", _value(v.args[1], truthy, env)))
+            raise _Stop(None)
+        raise _Stop(None)
+    # fell through the end of the block: the enclosing block goes on
 
 
 def _method_call(fn):
     """
-    (class raised when `args and kwargs`, argument sent when <test> is truthy, argument sent otherwise, tested name).
-    Accepts `if args: send(args) else: send(kwargs)`, the mirrored `if kwargs: send(kwargs) else: send(args)`, their
-    negated forms and the early-return forms;
-    both are reported as (raise class, what is sent when positional arguments are present, what is sent when only
-    keywords are present, what is sent when neither is present).
+    What `_Method.__call__` does in each of the four cases (positional arguments present or not x keywords present or
+    not), found by executing its body symbolically over the truth values of `args` and `kwargs`: statement forms
+    `if/else`, early returns, conditional expressions, `x or y`, a local that holds the choice
+    (`params = args if args else kwargs; return self.__send(self.__name, params)`) are all the same function.
+    Reported as (class raised when both are present, what is sent with positional arguments only, with keywords only,
+    with neither — "empty": either of the two empty containers, they are sent alike).
     """
-    both = None
-    choose = None
-    for i, s in enumerate(fn.body):
-        if not isinstance(s, ast.If):
-            continue
-        t = s.test
-        if isinstance(t, ast.BoolOp) and isinstance(t.op, ast.And) and sorted(filter(None, map(_name, t.values))) == ["args", "kwargs"]:
-            both = _raised(s.body)
-            continue
-        # `if not <x>: A else: B` is `if <x>: B else: A`; a branch that returns makes the statements after the `if`
-        # the other branch (`if <x>: return A` / `return B`)
-        then, other = s.body, s.orelse or fn.body[i + 1:]
-        if isinstance(t, ast.UnaryOp) and isinstance(t.op, ast.Not):
-            t, then, other = t.operand, other, then
-        if _name(t) in ("args", "kwargs"):
-            a, b = _send_arg(then), _send_arg(other)
-            if a and b:
-                choose = (_name(t), a, b)
-    if both is None or choose is None:
+    def case(a, k):
+        try:
+            _run(fn.body, {"args": a, "kwargs": k}, {})
+        except _Stop as st:
+            return st.what
         return None
-    tested, when_true, when_false = choose
-    if tested == "args":
-        pos, kw, neither = when_true, when_false, when_false
-    else:
-        pos, kw, neither = when_false, when_true, when_false
-    # "neither": both are empty; an empty tuple and an empty dict are sent alike (params omitted / []), so which of the
-    # two empty containers is sent does not matter: report "empty" for either
-    return (both, pos, kw, "empty" if neither in ("args", "kwargs") else neither)
+    both, pos, kw, neither = case(True, True), case(True, False), case(False, True), case(False, False)
+    if None in (both, pos, kw, neither) or both[0] != "raise" or pos[0] != "send" or kw[0] != "send" or neither[0] != "send":
+        return None
+    if None in (both[1], pos[1], kw[1], neither[1]):
+        return None
+    return (both[1], pos[1], kw[1], "empty" if neither[1] in ("args", "kwargs") else neither[1])
 
 
 def _request_result(fn):
@@ -180,6 +237,227 @@ def _own_attrs(cls):
     return sorted(names)
 
 
+def _str_test(e, param):
+    """`param.startswith(lit)` / `param.endswith(lit)` / `param[:n] == lit` / `param[-n:] == lit` -> (kind, lit)."""
+    if isinstance(e, ast.Call) and isinstance(e.func, ast.Attribute) and _name(e.func.value) == param \
+            and e.func.attr in ("startswith", "endswith") and len(e.args) == 1 and isinstance(e.args[0], ast.Constant) \
+            and isinstance(e.args[0].value, str):
+        return (e.func.attr, e.args[0].value)
+    if isinstance(e, ast.Compare) and len(e.ops) == 1 and isinstance(e.ops[0], ast.Eq):
+        l, r = e.left, e.comparators[0]
+        if isinstance(l, ast.Constant):
+            l, r = r, l
+        if isinstance(r, ast.Constant) and isinstance(r.value, str) and isinstance(l, ast.Subscript) and _name(l.value) == param \
+                and isinstance(l.slice, ast.Slice) and l.slice.step is None:
+            lo, hi, n = l.slice.lower, l.slice.upper, len(r.value)
+            if lo is None and isinstance(hi, ast.Constant) and hi.value == n:
+                return ("startswith", r.value)
+            if hi is None and isinstance(lo, ast.UnaryOp) and isinstance(lo.op, ast.USub) and isinstance(lo.operand, ast.Constant) \
+                    and lo.operand.value == n:
+                return ("endswith", r.value)
+    return None
+
+
+def _proxy_getattr(fn):
+    """
+    ServerProxy.__getattr__(self, name): ((class raised, connective, [(startswith|endswith, literal)..]) for the names it
+    refuses, (class built, sender attribute, name argument) for the others).
+    """
+    if len(fn.args.args) != 2:
+        return None
+    param = fn.args.args[1].arg
+    refuse = ret = None
+    for s in fn.body:
+        if isinstance(s, ast.Expr) and isinstance(s.value, ast.Constant):
+            continue
+        if isinstance(s, ast.If) and not s.orelse and refuse is None and ret is None:
+            t = s.test
+            if isinstance(t, ast.BoolOp):
+                conn, parts = ("and" if isinstance(t.op, ast.And) else "or"), [_str_test(v, param) for v in t.values]
+            else:
+                conn, parts = "and", [_str_test(t, param)]
+            cls = _raised(s.body)
+            if cls is None or None in parts:
+                return None
+            refuse = (cls, conn, parts)
+        elif isinstance(s, ast.Return) and ret is None:
+            v = s.value
+            if isinstance(v, ast.Call) and len(v.args) == 2 and not v.keywords and isinstance(v.args[0], ast.Attribute) \
+                    and _name(v.args[0].value) == "self":
+                ret = (_name(v.func), v.args[0].attr, "name" if _name(v.args[1]) == param else "?")
+            else:
+                return None
+        else:
+            return None
+    if refuse is None or ret is None or None in ret:
+        return None
+    return (refuse, ret)
+
+
+def _self_stores(fn):
+    """Attribute names of `self` that the function assigns (any assignment form, setattr, del)."""
+    out = set()
+    for n in ast.walk(fn):
+        if isinstance(n, ast.Attribute) and isinstance(n.ctx, (ast.Store, ast.Del)) and _name(n.value) == "self":
+            out.add(n.attr)
+        if isinstance(n, ast.Call) and _name(n.func) in ("setattr", "delattr") and n.args and _name(n.args[0]) == "self":
+            out.add("?")
+        if isinstance(n, ast.Call) and isinstance(n.func, ast.Attribute) and n.func.attr in ("__setattr__", "__dict__", "update"):
+            out.add("?")
+    return out
+
+
+def _locals(fn):
+    """Locals of the function that are assigned exactly once, at top level, to an expression: name -> expression."""
+    env, count = {}, {}
+    for n in ast.walk(fn):
+        if isinstance(n, ast.Name) and isinstance(n.ctx, ast.Store):
+            count[n.id] = count.get(n.id, 0) + 1
+    for s in fn.body:
+        if isinstance(s, ast.Assign) and len(s.targets) == 1 and isinstance(s.targets[0], ast.Name) and count.get(s.targets[0].id) == 1:
+            env[s.targets[0].id] = s.value
+    return env
+
+
+def _deref(e, env):
+    seen = 0
+    while isinstance(e, ast.Name) and e.id in env and seen < 8:
+        e = env[e.id]
+        seen += 1
+    return e
+
+
+def _fmt_call(e, param, env=None):
+    """`"<fmt>".format(self.<attr>, <param>)` (possibly held in a local) -> (fmt, attr)."""
+    e = _deref(e, env or {})
+    if isinstance(e, ast.Call) and isinstance(e.func, ast.Attribute) and e.func.attr == "format" and isinstance(e.func.value, ast.Constant) \
+            and isinstance(e.func.value.value, str) and len(e.args) == 2 and isinstance(e.args[0], ast.Attribute) \
+            and _name(e.args[0].value) == "self" and _name(e.args[1]) == param:
+        return (e.func.value.value, e.args[0].attr)
+    return None
+
+
+def _method_getattr(fn):
+    """
+    _Method.__getattr__(self, name): (names answered with something else than a nested method, format of the nested
+    name, whether the result is a NEW `_Method(self.__send, fmt.format(self.__name, name))`, whether the function
+    assigns no attribute of `self`).
+    """
+    if len(fn.args.args) != 2:
+        return None
+    param = fn.args.args[1].arg
+    env = _locals(fn)
+    special, fmt, fresh = [], None, False
+    for s in fn.body:
+        if isinstance(s, ast.If) and isinstance(s.test, ast.Compare) and len(s.test.ops) == 1 and isinstance(s.test.ops[0], ast.Eq) \
+                and _name(s.test.left) == param and isinstance(s.test.comparators[0], ast.Constant) and not s.orelse \
+                and len(s.body) == 1 and isinstance(s.body[0], ast.Return):
+            special.append(s.test.comparators[0].value)
+        elif isinstance(s, ast.Return):
+            v = _deref(s.value, env)
+            if isinstance(v, ast.Call) and len(v.args) == 2 and not v.keywords:
+                f = _fmt_call(v.args[1], param, env)
+                a0 = _deref(v.args[0], env)
+                fresh = (_name(v.func) == "_Method" and isinstance(a0, ast.Attribute) and _name(a0.value) == "self"
+                         and a0.attr.endswith("send") and f is not None and f[1].endswith("name"))
+                fmt = f[0] if f else fmt
+        elif isinstance(s, ast.Assign):
+            # an assignment whose value is the formatted name: a local (resolved above) or a store to self (reported
+            # through the last flag)
+            f = _fmt_call(s.value, param, env)
+            fmt = f[0] if f else fmt
+    if fmt is None:
+        return None
+    return (special, fmt, bool(fresh), not _self_stores(fn))
+
+
+def _job_getattr(fn):
+    """MultiCallMethod.__getattr__(self, method): (format, assigns self.method = fmt.format(self.method, method),
+    returns self)."""
+    if len(fn.args.args) != 2:
+        return None
+    param = fn.args.args[1].arg
+    env = _locals(fn)
+    fmt, assigns, ret_self = None, False, False
+    for s in fn.body:
+        if isinstance(s, ast.Assign) and len(s.targets) == 1 and isinstance(s.targets[0], ast.Attribute) \
+                and _name(s.targets[0].value) == "self":
+            f = _fmt_call(s.value, param, env)
+            if f is not None and f[1] == s.targets[0].attr == "method":
+                fmt, assigns = f[0], True
+        elif isinstance(s, ast.Return):
+            v = _deref(s.value, env)
+            ret_self = _name(v) == "self"
+            if isinstance(v, ast.Call) and len(v.args) >= 1:
+                f = _fmt_call(v.args[-1], param, env) or _fmt_call(v.args[0], param, env)
+                fmt = f[0] if f else fmt
+    if fmt is None:
+        return None
+    return (fmt, assigns, ret_self)
+
+
+def _is_clear(s, attr):
+    """`del self.<attr>[:]` / `self.<attr>[:] = []` / `self.<attr> = []` / `self.<attr>.clear()`."""
+    def is_attr(e):
+        return isinstance(e, ast.Attribute) and _name(e.value) == "self" and e.attr == attr
+
+    def full_slice(e):
+        return isinstance(e, ast.Subscript) and is_attr(e.value) and isinstance(e.slice, ast.Slice) \
+            and e.slice.lower is None and e.slice.upper is None and e.slice.step is None
+    if isinstance(s, ast.Delete) and len(s.targets) == 1 and full_slice(s.targets[0]):
+        return True
+    if isinstance(s, ast.Assign) and len(s.targets) == 1 and isinstance(s.value, ast.List) and not s.value.elts \
+            and (full_slice(s.targets[0]) or is_attr(s.targets[0])):
+        return True
+    if isinstance(s, ast.Expr) and isinstance(s.value, ast.Call) and isinstance(s.value.func, ast.Attribute) \
+            and s.value.func.attr == "clear" and is_attr(s.value.func.value) and not s.value.args:
+        return True
+    return False
+
+
+def _multicall_clears(fn):
+    """Where MultiCall._request empties `self._job_list`, relative to the statement that calls `_run_request`:
+    'after-run-request' (an unconditional top-level statement later in the body), 'before-run-request', 'conditional'
+    (nested in another statement), 'absent'."""
+    run_at = clear_at = None
+    for i, s in enumerate(fn.body):
+        if any(isinstance(n, ast.Call) and isinstance(n.func, ast.Attribute) and n.func.attr == "_run_request" for n in ast.walk(s)):
+            run_at = i if run_at is None else run_at
+        if _is_clear(s, "_job_list"):
+            clear_at = i if clear_at is None else clear_at
+        elif any(_is_clear(n, "_job_list") for n in ast.walk(s) if isinstance(n, ast.stmt) and n is not s):
+            return "conditional"
+    if run_at is None:
+        return None
+    if clear_at is None:
+        return "absent"
+    return "after-run-request" if clear_at > run_at else "before-run-request"
+
+
+def _getattr_appends(fn, notify):
+    """MultiCall.__getattr__ / MultiCallNotify.__getattr__: builds `MultiCallMethod(<name param>, …)`, appends it to the
+    job list (`self._job_list` / `self.multicall._job_list`) and returns it."""
+    if len(fn.args.args) != 2:
+        return None
+    param = fn.args.args[1].arg
+    var = None
+    appended = returned = False
+    for s in fn.body:
+        if isinstance(s, ast.Assign) and len(s.targets) == 1 and isinstance(s.value, ast.Call) and _name(s.value.func) == "MultiCallMethod" \
+                and s.value.args and _name(s.value.args[0]) == param:
+            flag = [k for k in s.value.keywords if k.arg == "notify"]
+            is_notify = bool(flag) and isinstance(flag[0].value, ast.Constant) and flag[0].value.value is True
+            if is_notify == notify:
+                var = _name(s.targets[0])
+        elif isinstance(s, ast.Expr) and isinstance(s.value, ast.Call) and isinstance(s.value.func, ast.Attribute) \
+                and s.value.func.attr == "append" and isinstance(s.value.func.value, ast.Attribute) \
+                and s.value.func.value.attr == "_job_list" and var is not None and s.value.args and _name(s.value.args[0]) == var:
+            appended = True
+        elif isinstance(s, ast.Return):
+            returned = var is not None and _name(s.value) == var
+    return bool(appended and returned)
+
+
 def facts(src):
     out = []
     fn = src.func("jsonrpc", "_Method.__call__")
@@ -217,4 +495,49 @@ def facts(src):
     oa = _own_attrs(cls) if cls is not None else None
     out.append(Fact("proxyOwnAttrs", "List String", None if oa is None else lean_list([lean_str(a) for a in oa]), ["C01"],
                     "ServerProxy: non-dunder attribute names found by normal lookup (never reach __getattr__)", json_value=oa))
+    fn = src.func("jsonrpc", "ServerProxy.__getattr__")
+    pg = _proxy_getattr(fn) if fn is not None else None
+    out.append(Fact("proxyGetattrRefuses", "String × String × List (String × String)",
+                    None if pg is None else "(%s, %s, %s)" % (lean_str(pg[0][0]), lean_str(pg[0][1]),
+                                                             lean_list(["(%s, %s)" % (lean_str(a), lean_str(b)) for a, b in pg[0][2]])),
+                    ["C01"], "ServerProxy.__getattr__: the class it raises and the test on the attribute name under which it "
+                    "does (which names are refused on the client side)", json_value=None if pg is None else pg[0]))
+    out.append(Fact("proxyGetattrReturns", "String × String × String",
+                    None if pg is None else "(%s)" % ", ".join(lean_str(x) for x in pg[1]), ["C01"],
+                    "ServerProxy.__getattr__: for every other name, (class built, sender, name argument)",
+                    json_value=None if pg is None else pg[1]))
+    fn = src.func("jsonrpc", "_Method.__getattr__")
+    mg = _method_getattr(fn) if fn is not None else None
+    out.append(Fact("methodGetattr", "List String × String × Bool × Bool",
+                    None if mg is None or not all(isinstance(x, str) for x in mg[0]) else "(%s, %s, %s, %s)" % (
+                        lean_list([lean_str(x) for x in mg[0]]), lean_str(mg[1]), "true" if mg[2] else "false", "true" if mg[3] else "false"),
+                    ["C01"], "_Method.__getattr__: (names not answered with a nested method, format of the nested name, the result is "
+                    "a NEW _Method(self.__send, fmt.format(self.__name, name)), no attribute of self is assigned)", json_value=mg))
+    fn = src.func("jsonrpc", "MultiCallMethod.__getattr__")
+    jg = _job_getattr(fn) if fn is not None else None
+    out.append(Fact("jobGetattr", "String × Bool × Bool",
+                    None if jg is None else "(%s, %s, %s)" % (lean_str(jg[0]), "true" if jg[1] else "false", "true" if jg[2] else "false"),
+                    ["C01"], "MultiCallMethod.__getattr__: (format, assigns self.method = fmt.format(self.method, name), returns self)",
+                    json_value=jg))
+    fn = src.func("jsonrpc", "MultiCall._request")
+    mcl = _multicall_clears(fn) if fn is not None else None
+    out.append(Fact("multicallClearsJobs", "String", None if mcl is None else lean_str(mcl), ["C01"],
+                    "MultiCall._request: where the job list is emptied relative to the _run_request statement", json_value=mcl))
+    f1, f2 = src.func("jsonrpc", "MultiCall.__getattr__"), src.func("jsonrpc", "MultiCallNotify.__getattr__")
+    ga = None if f1 is None or f2 is None else (_getattr_appends(f1, False), _getattr_appends(f2, True))
+    out.append(Fact("multicallGetattrAppends", "Bool × Bool",
+                    None if ga is None or None in ga else "(%s, %s)" % tuple("true" if b else "false" for b in ga), ["C01"],
+                    "MultiCall.__getattr__ / MultiCallNotify.__getattr__: a new MultiCallMethod(name[, notify=True]) is appended to the "
+                    "job list at attribute access and returned", json_value=ga))
+    fa, fb = src.func("jsonrpc", "_Method.__call__"), src.func("jsonrpc", "MultiCallMethod.__call__")
+
+    def receiver_positional(fn):
+        # `def __call__(*args, **kwargs)`: no named parameter a keyword of the remote method could collide with
+        a = fn.args
+        return not a.args and not a.posonlyargs and not a.kwonlyargs and a.vararg is not None and a.kwarg is not None
+    rp = None if fa is None or fb is None else (receiver_positional(fa), receiver_positional(fb))
+    out.append(Fact("callReceiverPositional", "Bool × Bool",
+                    None if rp is None else "(%s, %s)" % tuple("true" if b else "false" for b in rp), ["C01"],
+                    "_Method.__call__ / MultiCallMethod.__call__ take their receiver from *args (any keyword name, `self` included, "
+                    "is a keyword of the remote method)", json_value=rp))
     return out
